@@ -193,7 +193,10 @@ class IsotropicNormal(ssm_impl_api.AbstractTreeNormal[IsotropicTreeFlatten]):
     def _std_batched(self):
         if self.mean_flat.ndim > 2:
             return func.vmap(IsotropicNormal._std_batched)(self)
-        std_flat = func.vmap(linalg.vector_norm)(self.cholesky_flat)
+        # Use qr_r instead of a vector norm so that the standard deviation of an
+        # exactly known state (zero Cholesky factor) remains differentiable. See #668.
+        std_flat = func.vmap(linalg.qr_r)(self.cholesky_flat[..., None])
+        std_flat = np.abs(std_flat.reshape((-1,)))
         return self.tree_flatten.unflatten_array_scalar(std_flat)
 
     def residual_whitened_rms_tree(self, u):
